@@ -51,8 +51,9 @@ GROUPS = {
     "decoys": dict(Kinds={"function"}, Ops={"bind", "use", "param", "fuse", "cmtdecoy", "strdecoy"},
                    ScopeNames=set(), quick=({"a"}, 2, 4), thorough=({"a"}, 3, 4)),
     # multi-module part: a second module, the import forms, rename of its names / of the module
-    "modules": dict(Kinds={"function"}, Ops={"bind", "use", "libdef", "libuse", "fromlib", "fromlibas", "modattr", "asattr"},
-                    ScopeNames=set(), Libs={"module", "package", "relative", "external"},
+    "modules": dict(Kinds={"function"}, Ops={"bind", "use", "libdef", "libuse", "fromlib", "fromlibas", "modattr", "asattr",
+                         "sibdef", "sibuse", "fromsibas"},
+                    ScopeNames=set(), Libs={"module", "package", "relative", "external", "shadowed"},
                     quick=({"a"}, 2, 4), thorough=({"a"}, 3, 4)),
     # constructs with known gaps in rope
     "params": dict(Kinds={"function", "class"}, Ops={"use", "bind", "posonly", "kwonly", "vararg", "kwarg", "param"},
@@ -177,7 +178,7 @@ class Program:
         out = {}
         for e in self.events:
             if e["det"]:
-                out.setdefault(("lib" if e.get("lc") else e["b"], e["n"]), []).append(e)
+                out.setdefault(("sib" if e.get("sc") else "lib" if e.get("lc") else e["b"], e["n"]), []).append(e)
         return out
 
     def scope_label(self, s):
@@ -212,6 +213,10 @@ class Rendered:
         self.mod_tokens = []         # (path, line, col) of every token naming the second module
         self.extra_files = {}        # __init__.py files
         self.external = False        # the second module lies outside the project
+        self.sib_path = None         # layout "shadowed": the same-named sibling of the first module
+        self.sib_lines = []
+        self.sib_tok = {}            # sibling event key -> (line, col)
+        self.sib_mod_tokens = []     # (path, line, col) of tokens naming the sibling module
         self.use_line = {}   # line printed by _u -> event key
 
     @property
@@ -235,6 +240,8 @@ class Rendered:
         out = {self.main: self.src}
         if self.lib_path and not self.external:
             out[self.lib_path] = self.lib_src
+        if self.sib_path:
+            out[self.sib_path] = "\n".join(self.sib_lines) + "\n"
         out.update(self.extra_files)
         return out
 
@@ -257,7 +264,12 @@ class Rendered:
         for k, (line, col) in self.lib_tok.items():
             out[k] = ("<outside>/" + self.lib_path if self.external else self.lib_path,
                       self._off(self.lib_lines, line, col))
+        for k, (line, col) in self.sib_tok.items():
+            out[k] = (self.sib_path, self._off(self.sib_lines, line, col))
         return out
+
+    def sibling_module_places(self):
+        return sorted((p, self._off(self.lines, line, col)) for p, line, col in self.sib_mod_tokens)
 
     def module_places(self):
         return sorted((p, self._off(self.lines if p == self.main else self.lib_lines, line, col))
@@ -386,11 +398,16 @@ class _Renderer:
         p = self.p
         lib = p.libname
         frm = {"module": ["from ", self.modtok(), lib], "package": ["from pk.", self.modtok(), lib],
-               "relative": ["from .", self.modtok(), lib], "external": ["from ", self.modtok(), lib]}.get(p.lib)
+               "relative": ["from .", self.modtok(), lib], "external": ["from ", self.modtok(), lib],
+               "shadowed": ["from ", self.modtok(), lib]}.get(p.lib)
         for e in self.evs(s, "fromlib"):
             self.emit(indent, frm + [" import ", self.ident(e)])
         for e in self.evs(s, "fromlibas"):
             self.emit(indent, frm + [" import ", self.ident(e), " as _q%d" % s])
+        for e in self.evs(s, "fromsibas"):
+            # explicit relative import: the sibling module beside the importer
+            self.emit(indent, ["from .", ("mark", lambda l, c: self.r.sib_mod_tokens.append(("pk/mod.py", l, c))),
+                               "lb import ", self.ident(e), " as _r%d" % s])
         if self.evs(s, "modattr"):
             if p.lib == "relative":
                 self.emit(indent, ["from . import ", self.modtok(), lib])
@@ -408,11 +425,26 @@ class _Renderer:
         if p.lib == "none":
             return
         r.lib_path = {"module": "%s.py", "package": "pk/%s.py", "relative": "pk/%s.py",
-                      "external": "%s.py"}[p.lib] % p.libname
+                      "external": "%s.py", "shadowed": "%s.py"}[p.lib] % p.libname
         r.external = p.lib == "external"
-        if p.lib in ("package", "relative"):
+        if p.lib in ("package", "relative", "shadowed"):
             r.extra_files["pk/__init__.py"] = ""
-        if p.lib == "relative":
+        if p.lib == "shadowed":
+            # the importer's own folder holds another module called lb
+            r.sib_path = "pk/lb.py"
+            for e in self.evs(0, "sibdef"):
+                ln = len(r.sib_lines) + 1
+                r.sib_tok[ev_key(e)] = (ln, 0)
+                r.sib_lines.append("%s = %d" % (e["n"], 2000 + ln))
+            for e in self.evs(0, "sibuse"):
+                ln = len(r.sib_lines) + 1
+                text = "_u(%d, " % (2000 + ln)
+                r.sib_tok[ev_key(e)] = (ln, len(text))
+                r.sib_lines.append(text + e["n"] + ")")
+                r.use_line[2000 + ln] = ev_key(e)
+            if not r.sib_lines:
+                r.sib_lines.append("pass")
+        if p.lib in ("relative", "shadowed"):
             r.main = "pk/mod.py"
             r.mod_tokens = [("pk/mod.py", l, c) for (_, l, c) in r.mod_tokens]
         lines = r.lib_lines
@@ -829,6 +861,16 @@ def cpython_check(prog, r, run=True):
         for (path, line, col) in r.mod_tokens:
             if path != r.main or names_at.get((line, col)) != prog.libname:
                 raise SpecMismatch("module token not at %s" % ((path, line, col),))
+        if r.sib_path is not None:
+            sib_src = r.files[r.sib_path]
+            sib_names = {t.start: t.string for t in tokenize.generate_tokens(io.StringIO(sib_src).readline)
+                         if t.type == tokenize.NAME}
+            for key, pos in r.sib_tok.items():
+                if sib_names.get(pos) != key[2]:
+                    raise SpecMismatch("token of %s not at %s in the sibling module" % (key, pos))
+            for (path, line, col) in r.sib_mod_tokens:
+                if names_at.get((line, col)) != "lb":
+                    raise SpecMismatch("sibling module token not at %s" % ((path, line, col),))
     if run:
         out, exc = run_rendered(r)
         if out is None:
@@ -847,6 +889,8 @@ def _provenance(prog, r, out):
     for e in prog.events:
         if e["op"] == "libdef":
             value_lines.setdefault(("lib", e["n"]), set()).add(1000 + r.lib_tok[ev_key(e)][0])
+        if e["op"] == "sibdef":
+            value_lines.setdefault(("sib", e["n"]), set()).add(2000 + r.sib_tok[ev_key(e)][0])
         if e["op"] in VALUE_BINDERS and e["b"] != 0:
             ln = r.tok[ev_key(e)][0]
             if e["op"] == "matchcap":
@@ -860,6 +904,10 @@ def _provenance(prog, r, out):
         if key is None:
             continue
         e = by_key[key]
+        if e.get("sc"):
+            if val.isdigit() and int(val) not in value_lines.get(("sib", e["n"]), ()):
+                raise SpecMismatch("use %s of the sibling module's %s printed %s" % (key, e["n"], val))
+            continue
         if e.get("lc"):
             if val.isdigit() and int(val) not in value_lines.get(("lib", e["n"]), ()):
                 raise SpecMismatch("use %s of the second module's %s printed %s" % (key, e["n"], val))
